@@ -886,7 +886,8 @@ func VerifC06Step(op, e0, sp0, p1, sp1, p2, sel int) {
 	vrt.Assert(out.class != 3, "Go run-time fault in a list operation")
 
 	// ---- (1) stores ----
-	vrt.Carve("C06-rplacd-overwrites-tail-cells", op == zzC06Rplacd && la > 0 && lb > 0 && 1+lb <= capA &&
+	// rplacd works in place over the cells behind the first element: it overwrites cells a live tail still sees
+	vrt.Carve("C06-rplacd-in-place", op == zzC06Rplacd && la > 0 && lb > 0 && 1+lb <= capA &&
 		zzC06MinTail(&p, i1) < p.ae[ka] && zzC06MinTail(&p, i1) <= p.lo[i1]+lb)
 	vrt.Carve("C06-rplacd-nil-writes-tail-marker", op == zzC06RplacdNil && la > 0)
 	vrt.Carve("C06-revappend-empty-first-appends-in-place", op == zzC06Revappend && la == 0 && lb > 0 && lb <= capA)
@@ -945,6 +946,7 @@ func VerifC06Step(op, e0, sp0, p1, sp1, p2, sel int) {
 	// ---- (4) invariant I for pool + result ----
 	ka1 := p.ae[ka]
 	vrt.Carve("C06-extend-in-place-stale-prefix", inPlaceEnd > ka1)
+	// a shorter rplacd result is a prefix re-slice whose spare capacity covers the old tail's cells
 	vrt.Carve("C06-rplacd-shorter-exposes-cells", inPlaceEnd >= 0 && inPlaceEnd < ka1)
 	zzC06InvI(&p, out.val, "result")
 	if ex.hasVar {
